@@ -200,6 +200,8 @@ func newWorld() *world {
 func (w *world) newSock(name, ip string, port int, natExt string) *vsock {
 	s := &vsock{w: w, name: name, addr: &net.UDPAddr{IP: net.ParseIP(ip), Port: port}, in: make(chan rxPacket, 4096),
 		closed: make(chan struct{}), wdl: make(chan struct{}), rdlChange: make(chan struct{})}
+	w.mu.Lock() // gatherer goroutines open sockets while others send
+	defer w.mu.Unlock()
 	w.socks[name] = s
 	if natExt != "" {
 		w.natExt[name] = natExt
